@@ -241,7 +241,10 @@ func countLinks(n *html.Node) int {
 }
 
 // plainPath: no ancestor could be taken for navigation by ANY reading of the
-// modes: no class/id/role, not nav/aside/header/footer, no link-heavy block.
+// modes: no id/role, no class other than one of the ordinary styling names the
+// generator authored as outside the vocabulary (neutralClasses: "card", "row",
+// …), not nav/aside/header/footer, no link-heavy block. What OTHER elements of
+// the document look like (same class with a navigation id, …) does not matter.
 func plainPath(n *html.Node, root *html.Node) bool {
 	for p := n.Parent; p != nil; p = p.Parent {
 		if p.Type == html.ElementNode {
@@ -254,7 +257,7 @@ func plainPath(n *html.Node, root *html.Node) bool {
 				}
 			}
 			for _, a := range p.Attr {
-				if a.Key == "class" || a.Key == "id" || a.Key == "role" {
+				if a.Key == "id" || a.Key == "role" || (a.Key == "class" && !neutralClass[a.Val]) {
 					return false
 				}
 			}
@@ -460,7 +463,7 @@ func oracles(c *hx.Ctx, k *kase, data []byte, run *docRun, g *genInfo) {
 			}
 			why := "no ancestor is excluded by this mode"
 			if plain {
-				why = "no ancestor has a class/id/role, a nav/aside/header/footer tag or four links"
+				why = "no ancestor has an id/role, a class other than an ordinary styling name (card, row, …), a nav/aside/header/footer tag or four links"
 			}
 			if !chk(c, "C19/outside-changed", have[t.tok], k, func() string {
 				return fmt.Sprintf("token %s is returned by mode none, %s, but mode %s does not return it", t.tok, why, modeName[m])
